@@ -1,5 +1,5 @@
 (* C15chk.v — predicates for changesets (a) and the modification-flag back-fill (c). *)
-From Continuum Require Import Model.Base Model.VTable Model.Backfill Model.Changeset.
+From Continuum Require Import Model.Base Model.VTable Model.Backfill Model.Changeset Model.Core Checks.Corechk Checks.CoreProps.
 
 Definition cs_entry := (nat * val * val)%type.
 Definition cs_entry_eqb (a b : cs_entry) : bool :=
@@ -7,7 +7,8 @@ Definition cs_entry_eqb (a b : cs_entry) : bool :=
 
 Inductive C15_case :=
 | C15_CS (validity : bool) (t : vtable) (obs : list (pk * Z * list cs_entry)) (exc : bool)
-| C15_BF (t : vtable) (after : vtable) (exc : bool).
+| C15_BF (t : vtable) (after : vtable) (exc : bool)
+| C15_H (h : core_case).      (* (b) a history run on the real code with the tracker plugin: flags written by the object path *)
 
 Definition C15_corr (c : C15_case) : bool :=
   match c with
@@ -19,6 +20,7 @@ Definition C15_corr (c : C15_case) : bool :=
                                       (if validity then changeset_V t r else changeset_S t r) (snd o)
                         end) obs
   | C15_BF t after exc => negb exc && table_eqb (backfill_flags t) after
+  | C15_H h => Core_corr h
   end.
 
 (* specification side: predecessor by position in the sorted version list *)
@@ -59,10 +61,12 @@ Definition C15_prop (c : C15_case) : bool :=
                             list_eqb val_eqb (vdat r') (vdat r) &&
                             list_eqb Bool.eqb (vmod r') (spec_flags t r)
                         end) t
+  | C15_H h => negb (cc_exc h) && C15b_prop h
   end.
 
 Definition C15_pre (c : C15_case) : bool :=
   match c with
   | C15_CS validity t _ _ => if validity then chain_okb t else true
   | C15_BF t _ _ => chain_okb t
+  | C15_H _ => true
   end.
